@@ -12,7 +12,7 @@ structure St where
   cache : Nat := 1073741824     -- timer cache bytes of the operator (`size.GB` unless the harness shrinks it)
   ckptDb : Option Timers.DB := none
   kgc : Nat := 1
-  toldSpec : Bool := true   -- compare what the handler is told with the property's own reading (off in C10's operator mode)
+  toldSpec : Bool := true   -- compare what the handler is told with the property's own reading
   w : Wm.Watermarker := Wm.Watermarker.new 0
   op : Op := ⟨Registry.new (Store.new [] 1 0 1 0) [], [], 1⟩
   -- the property's own reading, computed without the regenerated facts (C11.wm_eq_max_minus, composite_eq_min,
@@ -63,15 +63,15 @@ def withSpecKf (kf model spec : String) : String :=
 def withSpec (model spec : String) : String := withSpecKf "spec-deviation" model spec
 
 /-- the property's own reading: minimum over all configured or reporting runners of the latest report, the epoch for
-a runner that has not reported — also when no runner has reported yet (finding D58: the code tells `time.Time{}` then) -/
+a runner that has not reported — also when no runner has reported yet (finding D58, repaired: the code told `time.Time{}` then) -/
 def specComposite (ids : List String) (msgs : List (String × Int)) : Int :=
   let runners := ids ++ msgs.map (·.1)
   match runners.map (fun id => ((msgs.reverse.find? (·.1 == id)).map (·.2)).getD 0) with
   | [] => 0
   | v :: vs => vs.foldl (fun m x => if x < m then x else m) v
 
-/-- the situation of finding D58 (and only that): no watermark message of the current deployment has arrived -/
-def toldKf (msgs : List (String × Int)) : String := if msgs.isEmpty then "D58" else "spec-deviation"
+/-- no deviation of what the handler is told is a recorded finding any more (D58 was repaired by 204a1f7) -/
+def toldKf (_msgs : List (String × Int)) : String := "spec-deviation"
 
 /-- every request of the step must carry the composite -/
 def retold (c : Int) (rs : List Req) : List Req := rs.map fun r => { r with told := c }
